@@ -348,25 +348,31 @@ def firstParamType (params : List Node) : Option Node :=
   | some (.mk .objectPat _ [_, a]) => typeAnnInner a
   | _ => none
 
+/-- what one member of an emits type contributes: a call signature the literal names of its first parameter, a statically
+    named property / method its name -/
+def emitMemberSpec (fuel : Nat) (reg : St) (acc : Option (List String)) (m : Node) : Option (List String) :=
+  match acc, m with
+  | some a, .mk .tsCallSig _ (.mk .list _ params :: _) =>
+    (match firstParamType params with
+     | some t => (literalStrings fuel reg t).map (a ++ ·)
+     | none => some a)
+  -- the property syntax `{ name: [args] }` / `{ name(args): void }`: statically named (identifier or quoted) members
+  | some a, .mk .tsPropSig _ (k :: _) => some (match pickName k with | some n => a ++ [n] | none => a)
+  | some a, .mk .tsMethodSig _ (k :: _) => some (match pickName k with | some n => a ++ [n] | none => a)
+  | some a, _ => some a
+  | none, _ => none
+
+def emitsOfMembers (fuel : Nat) (reg : St) (members : List Node) (init : List String) : Option (List String) :=
+  members.foldl (emitMemberSpec fuel reg) (some init)
+
 /-- the event names an emits type declares; `none` = outside the grammar -/
 def emitsOfType (fuel : Nat) (reg : St) (ty : Node) : Option (List String) :=
   match fuel with
   | 0 => none
   | fuel + 1 =>
-    let ofMembers (members : List Node) : Option (List String) :=
-      members.foldl (fun acc m =>
-        match acc, m with
-        | some a, .mk .tsCallSig _ (.mk .list _ params :: _) =>
-          (match firstParamType params with
-           | some t => (literalStrings fuel reg t).map (a ++ ·)
-           | none => some a)
-        | some a, .mk .tsPropSig _ (k :: _) => some (a ++ [specKeyName k])
-        | some a, .mk .tsMethodSig _ (k :: _) => some (a ++ [specKeyName k])
-        | some a, _ => some a
-        | none, _ => none) (some [])
     match ty with
-    | .mk .tsTypeLit _ [.mk .list _ members] => ofMembers members
-    | .mk .tsFnType _ (.mk .list _ params :: _) =>
+    | .mk .tsTypeLit _ [.mk .list _ members] => emitsOfMembers fuel reg members []
+    | .mk .tsFnType _ [.mk .list _ params, _, _] =>
       (match firstParamType params with
        | some t => literalStrings fuel reg t
        | none => some [])
@@ -375,7 +381,7 @@ def emitsOfType (fuel : Nat) (reg : St) (ty : Node) : Option (List String) :=
       ts.foldl (fun acc t => match acc, emitsOfType fuel reg t with | some a, some b => some (a ++ b) | _, _ => none) (some [])
     | .mk .tsIntersection _ [.mk .list _ ts] =>
       ts.foldl (fun acc t => match acc, emitsOfType fuel reg t with | some a, some b => some (a ++ b) | _, _ => none) (some [])
-    | .mk .tsTypeRef _ (.mk .ident (n :: b :: _) _ :: _) =>
+    | .mk .tsTypeRef _ [.mk .ident (n :: b :: _) _, _] =>
       match lookupReg reg.typeAliases (n, b) with
       | some t => emitsOfType fuel reg t
       | none =>
@@ -385,7 +391,7 @@ def emitsOfType (fuel : Nat) (reg : St) (ty : Node) : Option (List String) :=
             match acc, p with
             | some a, .mk .tsExprWithTypeArgs _ [.mk .ident ias _, targs] =>
               (emitsOfType fuel reg (.mk .tsTypeRef [] [.mk .ident ias [], targs])).map (a ++ ·)
-            | _, _ => none) (ofMembers members)
+            | _, _ => none) (emitsOfMembers fuel reg members [])
         | _ => none
     | _ => none
 
